@@ -5,9 +5,38 @@ package symgo
 import (
 	"go/token"
 	"go/types"
+	"strconv"
 	"strings"
 	"unicode/utf8"
+
+	"golang.org/x/tools/go/ssa"
 )
+
+// noopNilIfaceMethod: interface methods of the no-op'd libraries (noopPrefixes: prometheus, klog,
+// metrics) invoked on a nil interface value — which under symgo is what their no-op'd constructors
+// (e.g. CounterVec.WithLabelValues) return — are no-ops too. Any other method call on a nil
+// interface is a nil-pointer panic of the program under test.
+var c08NoopIfaceMethods = map[string]*ssa.Function{}
+
+func noopNilIfaceMethod(i *interpreter, m *types.Func) *ssa.Function {
+	sig, ok := m.Type().(*types.Signature)
+	if !ok || sig.Recv() == nil || m.Pkg() == nil {
+		return nil
+	}
+	name := "(" + types.TypeString(sig.Recv().Type(), nil) + ")." + m.Name()
+	if f, ok := c08NoopIfaceMethods[name]; ok {
+		return f
+	}
+	var f *ssa.Function
+	for _, p := range noopPrefixes {
+		if strings.HasPrefix(name, p) {
+			f = i.prog.NewFunction(m.Name(), sig, "symgo: no-op library method on a nil interface")
+			break
+		}
+	}
+	c08NoopIfaceMethods[name] = f
+	return f
+}
 
 type c08B58Result struct {
 	bytes  []value
@@ -129,6 +158,16 @@ func init() {
 	} {
 		if externals[k] == nil {
 			externals[k] = v
+		}
+	}
+	// strconv.ParseUint on a concrete string: the real function (run natively by the engine)
+	if externals["strconv.ParseUint"] == nil {
+		externals["strconv.ParseUint"] = func(fr *frame, args []value) value {
+			v, err := strconv.ParseUint(args[0].(string), int(asInt64(args[1])), int(asInt64(args[2])))
+			if err != nil {
+				return tuple{v, newEngineError(err.Error(), nil)}
+			}
+			return tuple{v, iface{}}
 		}
 	}
 	// txstatus.IsEnabled() is a build-time constant (false without the FFI build tag, true with
